@@ -118,6 +118,91 @@ func buildClasses(c *core.Ctx, raws []json.RawMessage) map[classKey]*expect {
 	return out
 }
 
+// multiKey / multi classes: behaviours of Gen_CancelMulti grouped by their inputs.
+type multiKey struct {
+	Mode, CB, Timing string
+	BStalled         bool
+}
+
+type multiExpect struct {
+	RetB     map[string]bool // "ctx" | "io" | "nil"
+	BReturns bool
+	Members  int
+}
+
+func buildMulti(c *core.Ctx, raws []json.RawMessage) map[multiKey]*multiExpect {
+	out := map[multiKey]*multiExpect{}
+	for _, r := range raws {
+		var w struct {
+			Scn struct {
+				Mode, Cb, Timing string
+				Kb               int
+				Reta, Retb       string
+				Breturns, Closed bool
+				Donea            int
+			} `json:"scn"`
+		}
+		if err := json.Unmarshal(r, &w); err != nil || w.Scn.Mode == "" {
+			c.Broken("bad behaviour JSON from Gen_CancelMulti: %v: %s", err, string(r))
+			return nil
+		}
+		b := w.Scn
+		if b.Reta != "ctx" || !b.Closed {
+			continue // the binding only runs scenarios in which a is cancelled and returns the context's error
+		}
+		k := multiKey{b.Mode, b.Cb, b.Timing, b.Kb > 0}
+		x := out[k]
+		if x == nil {
+			x = &multiExpect{RetB: map[string]bool{}, BReturns: true}
+			out[k] = x
+		}
+		x.Members++
+		if !b.Breturns {
+			x.BReturns = false
+		} else {
+			x.RetB[b.Retb] = true
+		}
+	}
+	return out
+}
+
+// judgeMulti checks the second operation of a reuse / duplex run.
+func judgeMulti(s Scn, o Obs, multi map[multiKey]*multiExpect) (d *diff, harness string) {
+	if !o.BStarted {
+		return nil, "the second operation was not started"
+	}
+	x := multi[multiKey{s.Mode, s.CB, s.Timing, o.BStalled}]
+	if x == nil {
+		return nil, fmt.Sprintf("no CancelMulti class for %s/%s/%s/stalled=%v", s.Mode, s.CB, s.Timing, o.BStalled)
+	}
+	if !x.BReturns {
+		return nil, "class in which the second operation need not return"
+	}
+	what := "the operation issued again after the cancelled one"
+	if s.Mode == "duplex" {
+		what = "the operation running on the other direction of the stream"
+	}
+	if !o.BReturned {
+		return &diff{"second-returns", fmt.Sprintf("%s (context: %s) had not returned %s later: it hangs", what, s.CB, hardWait)}, ""
+	}
+	if o.BLatencyMs > float64(latencyBound.Milliseconds()) {
+		return &diff{"second-returns", fmt.Sprintf("%s returned only after %.0f ms (bound %s)", what, o.BLatencyMs, latencyBound)}, ""
+	}
+	ok := false
+	switch o.BErrClass {
+	case "none":
+		ok = x.RetB["nil"]
+	case "ctx":
+		ok = x.RetB["ctx"]
+	default:
+		ok = x.RetB["io"]
+	}
+	if !ok {
+		return &diff{"second-error", fmt.Sprintf("%s returned %s (%q); the model allows %v", what, o.BErrClass, o.BErrText, x.RetB)}, ""
+	}
+	return nil, ""
+}
+
 func classOf(s Scn) classKey {
 	return classKey{s.CtxKind, s.K > 0, s.Timing, s.J == s.N && s.J > 0}
 }
@@ -201,8 +286,12 @@ func opKind(s Scn, kinds string) string {
 
 func signature(s Scn, kinds string, d *diff) map[string]string {
 	op := opKind(s, kinds)
-	return map[string]string{"spec": "Cancel", "shape": s.Shape, "role": s.Role, "op": op,
+	sig := map[string]string{"spec": "Cancel", "shape": s.Shape, "role": s.Role, "op": op,
 		"timing": s.Timing, "kind": s.CtxKind, "check": d.Check}
+	if s.Mode != "" {
+		sig["spec"], sig["mode"], sig["second_ctx"] = "CancelMulti", s.Mode, s.CB
+	}
+	return sig
 }
 
 type shapeInfo struct {
@@ -274,7 +363,7 @@ func enumerate(c *core.Ctx, si shapeInfo) []Scn {
 			}
 		}
 	}
-	for j := 1; j < n; j++ {
+	for j := 1; j < n && !si.sh.NoProbe; j++ {
 		add("between_steps", "cancel", "probe", j+1, j, nil)
 		if th || dlSample[j] {
 			add("between_steps", "deadline", "probe", j+1, j, nil)
@@ -293,6 +382,46 @@ func enumerate(c *core.Ctx, si shapeInfo) []Scn {
 			add("in_step_then_completes", "deadline", "probe", 0, j, nil)
 			if j < n {
 				add("in_step_then_completes", "cancel", "std", j+1, j, nil)
+			}
+		}
+	}
+	if th {
+		// context derived from the one that is cancelled (parent cancel): before the call,
+		// during every stall, in flight at every step
+		add("before_call", "derived", "std", 0, 0, nil)
+		for k := 1; k <= n; k++ {
+			add("during_stall", "derived", "std", k, k, nil)
+			add("in_step_then_completes", "derived", "std", 0, k, nil)
+			add("in_step_then_closed", "derived", "std", 0, k, nil)
+		}
+		// the firing step j against EVERY later stalled step k (all plain operations and handshakes)
+		if n <= 20 {
+			for j := 1; j <= n; j++ {
+				for k := j + 2; k <= n; k++ {
+					add("in_step_then_completes", "cancel", "std", k, j, nil)
+					if !si.sh.NoProbe {
+						add("between_steps", "cancel", "probe", k, j, nil)
+					}
+				}
+			}
+		}
+		// two calls on one stream (CancelMulti.tla): plain, repeatable operations
+		if si.sh.Repeatable {
+			for _, cb := range []string{"same", "fresh"} {
+				cb := cb
+				for k := 1; k <= n; k++ {
+					add("during_stall", "cancel", "std", k, k, func(s *Scn) { s.Mode, s.CB = "reuse", cb })
+					if k == 1 || k == n {
+						add("during_stall", "deadline", "std", k, k, func(s *Scn) { s.Mode, s.CB = "reuse", cb })
+					}
+					// duplex needs a stream whose first protected frames are behind it: plain or imported
+					if !strings.Contains(si.sh.Name, "enc") && !strings.HasSuffix(si.sh.Name, "_setconn") || strings.HasSuffix(si.sh.Name, "_imported") {
+						add("during_stall", "cancel", "std", k, k, func(s *Scn) { s.Mode, s.CB = "duplex", cb })
+					}
+				}
+				for j := 1; j < n; j++ {
+					add("between_steps", "cancel", "probe", j+1, j, func(s *Scn) { s.Mode, s.CB = "reuse", cb })
+				}
 			}
 		}
 	}
@@ -318,7 +447,7 @@ type failRec struct {
 
 // runAll executes the scenarios against the real code, confirms every
 // difference by an immediate second run and records failures.
-func runAll(c *core.Ctx, e *env, classes map[classKey]*expect, infos map[string]shapeInfo, scns []Scn, workers int) {
+func runAll(c *core.Ctx, e *env, classes map[classKey]*expect, multi map[multiKey]*multiExpect, infos map[string]shapeInfo, scns []Scn, workers int) {
 	var mu sync.Mutex
 	conform := int64(0)
 	byTiming := map[string]int{}
@@ -340,6 +469,9 @@ func runAll(c *core.Ctx, e *env, classes map[classKey]*expect, infos map[string]
 			for try := 0; try < 4; try++ {
 				o = exec(e, si.sh, s, x.ClosedAll)
 				d, hp = judge(si.sh, s, o, x)
+				if d == nil && hp == "" && s.Mode != "" {
+					d, hp = judgeMulti(s, o, multi)
+				}
 				if hp == "" || !strings.HasPrefix(hp, "deadline passed") {
 					break
 				}
@@ -476,16 +608,38 @@ func run(c *core.Ctx) {
 		}
 	}()
 	defer func() { <-genDone }()
+	// the two-call model (duplex / reuse): model check in the thorough tier, classes for replay
+	var multi map[multiKey]*multiExpect
+	multiDone := make(chan struct{})
+	go func() {
+		defer close(multiDone)
+		if !c.Thorough() && c.Replay == "" {
+			return
+		}
+		if c.Replay == "" {
+			kit.ModelCheck(c, "CancelMulti.tla", "MC_C19_multi.cfg", tlc.Options{Workers: 8})
+		}
+		raws := kit.Generate(c, "Gen_CancelMulti.tla", "Gen_C19_multi.cfg", tlc.Options{})
+		if c.IsBroken() {
+			return
+		}
+		multi = buildMulti(c, raws)
+		if multi != nil {
+			c.Set("model_classes_two_calls", len(multi))
+		}
+	}()
+	defer func() { <-multiDone }()
 	if c.Replay != "" {
+		<-multiDone
 		<-genDone
 		if classes != nil {
-			replayFile(c, e, classes)
+			replayFile(c, e, classes, multi)
 		}
 		return
 	}
 
 	// phase 1: count the I/O steps of every shape on the real code (twice: must agree)
-	shapes := allShapes()
+	shapes := allShapes(e, c.Thorough())
 	infos := map[string]shapeInfo{}
 	stepsPer := map[string]int{}
 	kindsPer := map[string]string{}
@@ -529,16 +683,20 @@ func run(c *core.Ctx) {
 	}
 	c.Set("io_steps_total", total)
 	<-genDone
-	if classes == nil || c.IsBroken() {
+	<-multiDone
+	if classes == nil || c.IsBroken() || (c.Thorough() && multi == nil) {
 		return
 	}
 	workers := 16
-	runAll(c, e, classes, infos, scns, workers)
+	runAll(c, e, classes, multi, infos, scns, workers)
+	if c.Thorough() {
+		runDialers(c, e)
+	}
 	c.Set("exhaustive", true)
 	c.Set("rule", "cases = real calls (plain stream operations and whole handshakes, both roles) on a TCP connection whose k-th I/O step never completes; the scenarios are the behaviour classes TLC enumerates from Gen_Cancel (context kind x stalled? x timing class x last-step?) expanded to EVERY step k (stall) / j (firing point) of every shape; each run is compared with the outcomes the model allows for its class (returns within 1 s of the firing, error class, connection closed); distinct = distinct (shape, role, k, j, timing, context kind/implementation); non-trivial = the context fires")
 }
 
-func replayFile(c *core.Ctx, e *env, classes map[classKey]*expect) bool {
+func replayFile(c *core.Ctx, e *env, classes map[classKey]*expect, multi map[multiKey]*multiExpect) bool {
 	if c.Replay == "" {
 		return false
 	}
@@ -550,12 +708,16 @@ func replayFile(c *core.Ctx, e *env, classes map[classKey]*expect) bool {
 	var rf struct {
 		Scenario Scn `json:"scenario"`
 	}
+	if err := json.Unmarshal(b, &rf); err == nil && rf.Scenario.Kind == "CancelDial" {
+		runDialers(c, e)
+		return true
+	}
 	if err := json.Unmarshal(b, &rf); err != nil || rf.Scenario.Kind != "Cancel" {
 		c.Broken("replay file is not a C19 scenario: %v", err)
 		return true
 	}
 	s := rf.Scenario
-	sh := findShape(s.Shape, s.Role)
+	sh := findShape(e, s.Shape, s.Role)
 	if sh == nil {
 		c.Broken("replay: unknown shape %s/%s", s.Shape, s.Role)
 		return true
@@ -574,6 +736,6 @@ func replayFile(c *core.Ctx, e *env, classes map[classKey]*expect) bool {
 		s.N = len(st)
 	}
 	infos := map[string]shapeInfo{s.Shape + "/" + s.Role: {sh, len(st), stepKinds(st)}}
-	runAll(c, e, classes, infos, []Scn{s}, 1)
+	runAll(c, e, classes, multi, infos, []Scn{s}, 1)
 	return true
 }
